@@ -317,7 +317,10 @@ def run(ctx):
             al = float(v_along[:, j] @ hvel[:, j])
             al2 = float((v_both[:, j] - v_across[:, j]) @ U[:, j])
             if abs(F1[j]) > 1e-6:
-                if not (al * F1[j] < 0 and al2 * F1[j] < 0):
+                # combined with an across-track angle: judged only inside the quantifier (|across| <= 70 deg); the
+                # angles beyond it exist to produce misses, and there cos(across) -> 0 lets the radial velocity dominate
+                in_scope = abs(F0[j]) <= 70 * DEG + 1e-12
+                if not (al * F1[j] < 0 and (al2 * F1[j] < 0 or not in_scope)):
                     ctx.violation("positive along-track angle does not tilt the view backward",
                                   {"signature": sig + ":%d:along" % j, **cb, "angle_rad": F1[j], "component_forward": al, "with_across": al2})
 
